@@ -3,22 +3,26 @@ from __future__ import annotations
 
 import ast
 import re
-from typing import Any
+from typing import Any, Iterator
 
 from jinja2 import nodes
 
 from .. import tplq
-from ..astutil import norm, short, where
+from ..astutil import Locals, constructs_error, norm, short, where
+from ..cfg import walk_own
 from ..core import PKG, Report
 from ..jinja_interp import expr_text
-from ..pe import PathEnum
+from .siblings import Path as SimPath
+from .siblings import PathSim
 
-LEVEL = ("sibling / guard rules: (1) every get_type_string implementation mentions Unset exactly when `not no_optional and "
-         "not required` (path enumeration over the boolean atoms, all overrides); to_string emits a default iff the truth "
-         "table says so; (2) every transform/construct macro of every property template handles Unset exactly on the "
-         "non-required arm, and a guard may be skipped only under `property.required` (truth tables over the Jinja guard "
-         "atoms); (3) model I/O: unconditional key writes imply `required`, optional pops carry the UNSET default; (4) null: "
-         "union parser, handle_nullable case exhaustiveness; (5) query filter tests identity with UNSET/None.")
+LEVEL = ("sibling / guard rules: (1) every get_type_string implementation evaluates an Unset-mentioning constant exactly when `not "
+         "no_optional and not required` (path simulation over the boolean atoms, all overrides); to_string emits a default iff the "
+         "truth table says so; (2) every transform/construct macro of every property template handles Unset exactly on the "
+         "non-required arm, and a guard may be skipped only under `property.required` (truth tables over the Jinja guard atoms, macro "
+         "calls within a template followed); (3) model I/O: unconditional key writes imply `required`, optional pops carry the UNSET "
+         "default (loop filters count as guards); (4) null: union parser, handle_nullable adds null on every path of every schema "
+         "shape, enum builder facts; (5) query filter tests identity with UNSET/None, optional path parameters rejected on every "
+         "path; (6) mandatory attributes are declared before defaulted ones; (7) required/default are never changed in place.")
 
 TEMPLATE_DIR = "property_templates/"
 
@@ -33,12 +37,17 @@ def run(rep: Report, ctx: Any) -> str:
                       "under an isinstance(..., Unset) test; an Unset guard is skipped only when `property.required`")
     rep.rule("R10.3", "to_dict writes a key unconditionally only if the property is required, otherwise under `is not UNSET`; "
                       "from_dict pops optional keys with the UNSET default and required keys without default")
+    rep.rule("R10.6", "the model class declares every mandatory attribute (required, no default) before every attribute that carries a "
+                      "default: each declaration pass is guarded so that it emits one kind only, and no defaulted pass precedes a "
+                      "mandatory one")
+    rep.rule("R10.7", "`required` and `default` of a property are never changed in place (attribute store, setattr, object.__setattr__): "
+                      "property objects are shared between models and endpoints, a changed value needs a copy")
     rep.rule("R10.4", "the union parser returns None before trying any member exactly when None is among its JSON types; "
                       "handle_nullable covers type scalar / type list / oneOf / anyOf / allOf")
     rep.rule("R10.5", "query parameters are dropped only by identity with UNSET or None; optional cookies/headers are guarded")
 
     # ---- R10.1 ----------------------------------------------------------------------------------------------------
-    pe = PathEnum(ix)
+    pe = _Mentions(ix)
     proto = ix.cls("PropertyProtocol")
     n_impl = 0
     for c in [proto] + ix.property_classes():
@@ -80,7 +89,8 @@ def run(rep: Report, ctx: Any) -> str:
             if m is None:
                 continue
             n_macros += 1
-            frs = list(tplq.frags(m.body))
+            tests: list[nodes.Node] = []
+            frs = list(_frags(m.body, ti, tests=tests))
             key = f"{tn}::{mn}"
             req_atom = "property.required"
             texts_req: list[str] = []
@@ -116,18 +126,18 @@ def run(rep: Report, ctx: Any) -> str:
                           "test would confuse falsy values with absence)", where=f"{PKG}/templates/{tn}:{m.lineno}",
                           lhs=opt.strip()[:100], rhs="isinstance(<source>, Unset) guard")
             # a guard is skipped only under property.required: every If that decides between the two arms tests exactly that atom
-            for n in m.find_all(nodes.If):
-                at = tplq.atoms(n.test)
+            for test in tests:
+                at = tplq.atoms(test)
                 if req_atom in at and len(at) > 1:
                     # the required arm must imply property.required
                     for env in tplq.assignments(at):
-                        val = tplq.evaluate(n.test, env)
+                        val = tplq.evaluate(test, env)
                         # polarity: which arm is "no guard"? the arm taken when property.required is True and all other atoms False
-                        base = tplq.evaluate(n.test, {a: (a == req_atom) for a in at})
+                        base = tplq.evaluate(test, {a: (a == req_atom) for a in at})
                         if val == base and not env[req_atom]:
-                            rep.fail("R10.2", key + f"::guard-skipped({expr_text(n.test)[:50]})",
-                                     f"the Unset guard is skipped under `{expr_text(n.test)}` although the property is not required "
-                                     f"(e.g. {env})", where=f"{PKG}/templates/{tn}:{n.lineno}", lhs=expr_text(n.test),
+                            rep.fail("R10.2", key + f"::guard-skipped({expr_text(test)[:50]})",
+                                     f"the Unset guard is skipped under `{expr_text(test)}` although the property is not required "
+                                     f"(e.g. {env})", where=f"{PKG}/templates/{tn}:{test.lineno}", lhs=expr_text(test),
                                      rhs="skipped only when property.required")
                             break
     rep.floor("unset_handling_macros", n_macros, 24)
@@ -138,7 +148,7 @@ def run(rep: Report, ctx: Any) -> str:
     td = mt.macros.get("_to_dict")
     rep.require(td, "_to_dict macro")
     n_w = 0
-    for fr in tplq.frags(td.body):
+    for fr in _frags(td.body, mt):
         if fr.kind != "expr":
             continue
         # "<name>": <python_name>   inside field_dict.update({...})  and  field_dict["<name>"] = <python_name>
@@ -165,22 +175,96 @@ def run(rep: Report, ctx: Any) -> str:
     # every property is covered by one of the two writes: required -> update, not required -> guarded
     # from_dict pops
     n_p = 0
-    for n in mt.tree.find_all(nodes.Assign):
-        if expr_text(n.node).startswith(("'d.pop(", "(('d.pop(", "('d.pop(")):
-            n_p += 1
-            txt = expr_text(n.node)
-            fr = next((f for f in tplq.frags(mt.tree.body) if False), None)
-            has_default = "UNSET" in txt
-            # which arm? find guard through a manual walk
-            pol = _assign_guard(mt.tree.body, n)
-            rep.require(pol is not None, "guard of property_source")
-            test, arm = pol
-            rep.require(test.endswith("[*].required"), "the requiredness test guarding the pop forms")
-            want_default = not arm
-            rep.check(has_default == want_default and test[:-len(".required")] + ".name" in txt, "R10.3", f"model.py.jinja::from_dict::pop[{'optional' if want_default else 'required'}]",
-                      "pop form does not match requiredness (optional keys need the UNSET default, required keys none)",
-                      where=f"{PKG}/templates/model.py.jinja:{n.lineno}", lhs=txt, rhs="d.pop(name, UNSET) iff not required")
+    kinds_seen = set()
+    for fr in _frags(mt.tree.body, mt, sets=True):
+        if fr.kind != "set" or "d.pop(" not in fr.text or not fr.loops:
+            continue
+        n_p += 1
+        pv = f"{fr.loops[-1]}[*]"
+        has_default = "UNSET" in fr.text
+        kind = "optional" if has_default else "required"
+        kinds_seen.add(kind)
+        # the form with the UNSET default is chosen exactly for properties that are not required (whatever the polarity of the test)
+        ok = tplq.implies(fr, f"{pv}.required", not has_default) and f"{pv}.name" in fr.text
+        rep.check(ok, "R10.3", f"model.py.jinja::from_dict::pop[{kind}]",
+                  "pop form does not match requiredness (optional keys need the UNSET default, required keys none)",
+                  where=f"{PKG}/templates/model.py.jinja:{fr.line}", lhs=[fr.text, [g for g, _ in fr.guards]], rhs="d.pop(name, UNSET) iff not required")
+    rep.check(kinds_seen == {"optional", "required"}, "R10.3", "model.py.jinja::from_dict::pop-forms", "from_dict no longer has one pop form "
+              "for required and one for optional keys", where=f"{PKG}/templates/model.py.jinja", lhs=sorted(kinds_seen), rhs=["optional", "required"])
     rep.floor("from_dict_pop_forms", n_p, 2)
+
+    # ---- R10.6 declaration order -------------------------------------------------------------------------------------------
+    # the class body declares its attributes in passes (loops); a declaration is mandatory when the property is required and has no
+    # default (to_string emits no `= ...`, R10.1).  Whatever the passes iterate over, their guards must make sure that no
+    # declaration that carries a default can come before a mandatory one.
+    passes: list[tuple[Any, tplq.Frag]] = []
+    for fr in _frags(mt.tree.body, mt):
+        if fr.kind == "expr" and fr.loops and fr.text == f"{fr.loops[-1]}[*].to_string()":
+            k_ = (fr.loops, tuple(id(g) for g in fr.guard_nodes if f"{fr.loops[-1]}[*]." in expr_text(g)))
+            if not any(k_ == q for q, _ in passes):
+                passes.append((k_, fr))
+    rep.floor("declaration_passes", len(passes), 2)
+    can: list[tuple[bool, bool]] = []
+    for i, (_, fr) in enumerate(passes):
+        pv = f"{fr.loops[-1]}[*]"
+        dn, rq = f"{pv}.default is none", f"{pv}.required"
+        names = list(dict.fromkeys(tplq.guard_atoms(fr) + [dn, rq]))
+        envs = [e for e in tplq.assignments(names) if tplq.guard_holds(fr, e)]
+        mand = any(e[dn] and e[rq] for e in envs)
+        dflt = any(not (e[dn] and e[rq]) for e in envs)
+        can.append((mand, dflt))
+        rep.check(not (mand and dflt), "R10.6", f"model.py.jinja::declarations::pass#{i + 1}",
+                  "one pass over the properties declares mandatory attributes and attributes with a default in document order (a "
+                  "required property with a default may precede one without)", where=f"{PKG}/templates/model.py.jinja:{fr.line}",
+                  lhs=[g for g, _ in fr.guards], rhs="guard decides `default is none and required`")
+    # when all passes run over the same collection, each property is declared by exactly one of them
+    same_iter = len({fr.loops[-1] for _, fr in passes}) == 1
+    counts = {}
+    for d_ in (False, True):
+        for r_ in (False, True):
+            n_ = 0
+            for _, fr in passes:
+                pv = f"{fr.loops[-1]}[*]"
+                dn, rq = f"{pv}.default is none", f"{pv}.required"
+                names = list(dict.fromkeys(tplq.guard_atoms(fr) + [dn, rq]))
+                n_ += any(tplq.guard_holds(fr, e) for e in tplq.assignments(names) if e[dn] == d_ and e[rq] == r_)
+            counts[f"default-none={d_},required={r_}"] = n_
+    rep.check(not same_iter or all(v == 1 for v in counts.values()), "R10.6", "model.py.jinja::declarations::each-once",
+              f"a property is declared by no pass or by several: {counts}", where=f"{PKG}/templates/model.py.jinja", lhs=counts, rhs="1 each")
+    bad_order = [(i + 1, j + 1) for i in range(len(can)) for j in range(i + 1, len(can)) if can[i][1] and can[j][0]]
+    rep.check(not bad_order, "R10.6", "model.py.jinja::declarations::order", "a pass that can declare an attribute with a default comes before "
+              f"a pass that can declare a mandatory attribute: passes {bad_order}", where=f"{PKG}/templates/model.py.jinja", lhs=bad_order, rhs=[])
+
+    # ---- R10.7 requiredness is decided at construction ------------------------------------------------------------------------
+    # property objects are shared (a model inherits the very objects of the model it references through allOf; parameters are
+    # shared between endpoints) and every template keys the three states on property.required / property.default: changing
+    # either in place changes another owner's declaration.  A new value needs a new object (evolve).
+    n_stores = 0
+    for f in ix.all_functions:
+        for n in ast.walk(f.node):
+            attr = obj = None
+            if isinstance(n, ast.Call) and norm(n.func) in ("object.__setattr__", "setattr") and len(n.args) == 3:
+                obj, attr = norm(n.args[0]), (n.args[1].value if isinstance(n.args[1], ast.Constant) else None)
+                n_stores += 1
+            elif isinstance(n, (ast.Assign, ast.AugAssign, ast.AnnAssign)):
+                for t in (n.targets if isinstance(n, ast.Assign) else [n.target]):
+                    if isinstance(t, ast.Attribute):
+                        obj, attr = norm(t.value), t.attr
+                        n_stores += 1
+            if attr in ("required", "default") and not (obj == "self" and f.name in ("__init__", "__attrs_post_init__")):
+                # stores into the pydantic document model (schema classes) are normalisation of the input, not of a property
+                if f.cls is not None and not any(k.name == "PropertyProtocol" for k in ix.mro(f.cls)) and obj == "self":
+                    continue
+                # an object this function has just constructed is not shared with anybody yet
+                made = Locals(f.node).defs.get(obj or "", [])
+                class_names = {c.name for c in ix.classes.values()} | {"cls"}
+                if made and all(isinstance(v, ast.Call) and norm(v.func) in class_names for _, _, v in made):
+                    continue
+                rep.fail("R10.7", f"{short(f)}::{attr}-set-in-place", f"`{attr}` of an existing object is changed in place ({norm(n)[:70]}): the "
+                         "object may be shared with another model or endpoint, whose declaration changes with it", where(f, n),
+                         lhs=norm(n)[:80], rhs=f"evolve(<prop>, {attr}=...)")
+    rep.floor("attribute_stores_scanned", n_stores, 5)
+    rep.ok("R10.7", "package::no-in-place-requiredness", n_stores, "no store to .required / .default")
 
     # ---- R10.4 ---------------------------------------------------------------------------------------------------------
     ut = jx.templates.get(TEMPLATE_DIR + "union_property.py.jinja")
@@ -189,8 +273,8 @@ def run(rep: Report, ctx: Any) -> str:
     rep.require(cons, "union construct")
     frs = list(tplq.frags(cons.body))
     none_fr = [f for f in frs if f.kind == "data" and "if data is None" in f.text]
-    ok = bool(none_fr) and any("'None' in property.get_type_strings_in_union" in g or '"None" in' in g or "None" in g
-                               for g, pol in none_fr[0].guards if pol) and "return data" in none_fr[0].text
+    none_atoms = [a for f in none_fr[:1] for a in tplq.guard_atoms(f) if a.startswith("'None' in ") and "type_strings" in a]
+    ok = bool(none_fr) and len(none_atoms) == 1 and tplq.implies(none_fr[0], none_atoms[0], True) and "return data" in none_fr[0].text
     first_loop = next((f for f in frs if f.loops), None)
     ok = ok and first_loop is not None and none_fr[0].line < first_loop.line
     rep.check(ok, "R10.4", "union_property.py.jinja::construct::none-short-circuit",
@@ -199,16 +283,22 @@ def run(rep: Report, ctx: Any) -> str:
     sch = ix.cls("Schema")
     hn = sch.methods.get("handle_nullable")
     rep.require(hn, "Schema.handle_nullable")
-    txt = norm(hn.node)
-    for field_, pat in (("type scalar", "isinstance(self.type, str)"), ("type list", "isinstance(self.type, list)"),
-                        ("oneOf", "self.oneOf"), ("anyOf", "self.anyOf"), ("allOf", "self.allOf")):
-        rep.check(pat in txt, "R10.4", f"Schema.handle_nullable::{field_}", f"nullable is not normalised for schemas using {field_}",
-                  where(hn, hn.node), lhs=field_, rhs=pat)
+    # a nullable schema of each shape gets a null alternative on every path; a schema that is not nullable never does
+    for field_ in ("type scalar", "type list", "oneOf", "anyOf", "allOf"):
+        paths = [p for p in _nullable_paths(hn.node, True, field_) if not isinstance(p.end, ast.Raise)]
+        rep.check(bool(paths) and all(_adds_null(p) for p in paths), "R10.4", f"Schema.handle_nullable::{field_}",
+                  f"nullable is not normalised for schemas using {field_}", where(hn, hn.node),
+                  lhs=[norm(p.end)[:60] if p.end is not None else "<end>" for p in paths if not _adds_null(p)][:2], rhs="a path that adds DataType.NULL")
+    paths = [p for f_ in ("type scalar", "oneOf") for p in _nullable_paths(hn.node, False, f_)]
+    rep.check(bool(paths) and not any(_adds_null(p) for p in paths), "R10.4", "Schema.handle_nullable::not-nullable",
+              "a schema that is not nullable gets a null alternative", where(hn, hn.node))
     comp_fields = [f for f in ix.all_fields(sch) if f in ("allOf", "oneOf", "anyOf")]
     rep.check(len(comp_fields) == 3, "R10.4", "Schema::composition-fields", "composition keywords changed", where(hn, hn.node))
     # type: null maps to NoneProperty
     pfd = ix.func("properties.property_from_data")
-    ok = any(isinstance(n, ast.If) and "DataType.NULL" in norm(n.test) and "NoneProperty" in norm(n) for n in ast.walk(pfd.node))
+    from ..astutil import region_walk
+
+    ok = any(isinstance(n, ast.If) and "DataType.NULL" in norm(n.test) and "NoneProperty" in norm(n) for _, n in region_walk(ix, pfd))
     rep.check(ok, "R10.4", "property_from_data::null->NoneProperty", "type: null no longer maps to NoneProperty", where(pfd, pfd.node))
 
     from .siblings import enum_builder_parity
@@ -220,27 +310,38 @@ def run(rep: Report, ctx: Any) -> str:
     rep.require(em, "endpoint_macros.py.jinja")
     qp = em.macros.get("query_params")
     rep.require(qp, "query_params macro")
-    filt = [f for f in tplq.frags(qp.body) if f.kind == "data" and "for k, v in params.items()" in f.text]
-    rep.require(filt, "query filter comprehension")
-    line = next(l for l in filt[0].text.splitlines() if "for k, v in params.items()" in l).strip()
+    # the statement of the generated code that rebuilds `params` from its own items (whatever its loop variables are called)
+    filt = []
+    line = ""
+    comp = None
+    for f in tplq.frags(qp.body):
+        if f.kind != "data":
+            continue
+        for l in f.text.splitlines():
+            try:
+                tree = ast.parse(l.strip())
+            except SyntaxError:
+                continue
+            for n in ast.walk(tree):
+                if isinstance(n, (ast.DictComp, ast.GeneratorExp, ast.ListComp)) and len(n.generators) == 1 and \
+                        norm(n.generators[0].iter) == "params.items()":
+                    filt, line, comp = [f], l.strip(), n
+    rep.require(filt and comp is not None, "query filter comprehension")
     ok = False
-    try:
-        tree = ast.parse(line)
-        comp = next(n for n in ast.walk(tree) if isinstance(n, ast.DictComp))
-        conds = comp.generators[0].ifs
-        seen = set()
-        ok = bool(conds)
-        for c in conds:
-            parts = c.values if isinstance(c, ast.BoolOp) and isinstance(c.op, ast.And) else [c]
-            for p in parts:
-                if isinstance(p, ast.Compare) and len(p.ops) == 1 and isinstance(p.ops[0], ast.IsNot) and isinstance(p.left, ast.Name) \
-                        and p.left.id == "v":
-                    seen.add(norm(p.comparators[0]))
-                else:
-                    ok = False
-        ok = ok and seen == {"UNSET", "None"}
-    except Exception:  # noqa: BLE001
-        ok = False
+    tgt = comp.generators[0].target
+    val = tgt.elts[1].id if isinstance(tgt, ast.Tuple) and len(tgt.elts) == 2 and isinstance(tgt.elts[1], ast.Name) else None
+    conds = comp.generators[0].ifs
+    seen = set()
+    ok = bool(conds) and val is not None
+    for c in conds:
+        parts = c.values if isinstance(c, ast.BoolOp) and isinstance(c.op, ast.And) else [c]
+        for p in parts:
+            if isinstance(p, ast.Compare) and len(p.ops) == 1 and isinstance(p.ops[0], ast.IsNot) and isinstance(p.left, ast.Name) \
+                    and p.left.id == val:
+                seen.add(norm(p.comparators[0]))
+            else:
+                ok = False
+    ok = ok and seen == {"UNSET", "None"}
     rep.check(ok, "R10.5", "endpoint_macros.py.jinja::query_params::filter",
               "query parameters are filtered by something other than identity with UNSET / None (a present falsy value would be dropped)",
               where=f"{PKG}/templates/{em.name}:{filt[0].line}", lhs=line, rhs="if v is not UNSET and v is not None")
@@ -250,7 +351,7 @@ def run(rep: Report, ctx: Any) -> str:
     ck = em.macros.get("cookie_params")
     rep.require(ck, "cookie_params macro")
     n_ck = 0
-    for fr in tplq.frags(ck.body):
+    for fr in _frags(ck.body, em):
         if fr.kind == "expr" and fr.loops and fr.text == f"{fr.loops[-1]}[*].name":
             n_ck += 1
             req = f"{fr.loops[-1]}[*].required"
@@ -266,12 +367,67 @@ def run(rep: Report, ctx: Any) -> str:
     # path parameters must be required
     vl = proto.methods.get("validate_location")
     rep.require(vl, "validate_location")
-    ok = any(isinstance(n, ast.If) and "ParameterLocation.PATH" in norm(n.test) and "not self.required" in norm(n.test) and
-             any(isinstance(r, ast.Return) and "ParseError" in norm(r) for r in n.body) for n in ast.walk(vl.node))
+    # an allowed location PATH with required=False: every path returns an error; with required=True some path accepts
+    def vl_paths(required: bool) -> list[SimPath]:
+        def leaf(e: ast.expr, st: dict, sim: PathSim) -> "bool | None":
+            if isinstance(e, ast.Compare) and len(e.ops) == 1:
+                if isinstance(e.ops[0], (ast.In, ast.NotIn)) and "_allowed_locations" in norm(e.comparators[0]):
+                    return isinstance(e.ops[0], ast.In)
+                if isinstance(e.ops[0], (ast.Eq, ast.NotEq, ast.Is, ast.IsNot)) and any(norm(x).endswith("ParameterLocation.PATH") for x in (e.left, e.comparators[0])):
+                    return isinstance(e.ops[0], (ast.Eq, ast.Is))
+            return required if norm(e) == "self.required" else None
+
+        return PathSim(vl.node, leaf).paths()
+
+    def rejects(p: SimPath) -> bool:
+        return isinstance(p.end, ast.Raise) or (isinstance(p.end, ast.Return) and constructs_error(p.end.value))
+
+    opt, req_ = vl_paths(False), vl_paths(True)
+    ok = bool(opt) and all(rejects(p) for p in opt) and any(not rejects(p) for p in req_)
     rep.check(ok, "R10.5", "validate_location::path-required", "an optional path parameter is no longer rejected", where(vl, vl.node))
     rep.not_decided.append("run-time values of attributes; nullable without type or composition falls through handle_nullable (observation)")
     rep.observe("Schema.handle_nullable: `nullable: true` on a schema without type/oneOf/anyOf/allOf is ignored")
     return LEVEL
+
+
+def _nullable_paths(fn: ast.AST, nullable: bool, shape: str) -> list[SimPath]:
+    """paths of Schema.handle_nullable for a schema of the given shape: `type` a scalar / a list (without null) / absent with one of
+    the composition keywords non-empty"""
+    from .siblings import _chain
+
+    def size(e: ast.expr) -> "int | None":
+        if isinstance(e, ast.Constant) and isinstance(e.value, int) and not isinstance(e.value, bool):
+            return e.value
+        if isinstance(e, ast.Call) and norm(e.func) == "len" and len(e.args) == 1 and norm(e.args[0]) in ("self.oneOf", "self.anyOf", "self.allOf"):
+            return 1 if norm(e.args[0]) == "self." + shape else 0
+        return None
+
+    def leaf(e: ast.expr, st: dict, sim: PathSim) -> "bool | None":
+        t = norm(e)
+        if t == "self.nullable":
+            return nullable
+        if t in ("self.oneOf", "self.anyOf", "self.allOf"):
+            return t == "self." + shape
+        if t == "self.type":
+            return shape.startswith("type")
+        if isinstance(e, ast.Call) and norm(e.func) == "isinstance" and len(e.args) == 2 and norm(e.args[0]) == "self.type":
+            kinds = [norm(x) for x in (e.args[1].elts if isinstance(e.args[1], ast.Tuple) else [e.args[1]])]
+            have = {"type scalar": "str", "type list": "list"}.get(shape)
+            return have in kinds if have else False
+        if isinstance(e, ast.Compare):
+            if len(e.ops) == 1 and isinstance(e.ops[0], (ast.In, ast.NotIn)) and norm(e.comparators[0]) == "self.type" and norm(e.left).endswith("NULL"):
+                return isinstance(e.ops[0], ast.NotIn)  # the list does not contain null yet
+            return _chain(e, size)
+        return None
+
+    def none_of(e: ast.expr, st: dict, sim: PathSim) -> "bool | None":
+        return (not shape.startswith("type")) if norm(e) == "self.type" else None
+
+    return PathSim(fn, leaf, none_of).paths()
+
+
+def _adds_null(p: SimPath) -> bool:
+    return any(any(isinstance(n, ast.Attribute) and n.attr == "NULL" for n in walk_own(s)) for s in p.stmts())
 
 
 def _prev_data(body: list[nodes.Node], target: Any) -> str | None:
@@ -301,26 +457,200 @@ def _prev_data(body: list[nodes.Node], target: Any) -> str | None:
     return found[0]
 
 
-def _assign_guard(body: list[nodes.Node], target: Any) -> tuple[str, bool] | None:
-    res: list[tuple[str, bool] | None] = [None]
+def _clone(n: Any, binding: dict[str, Any]) -> Any:
+    """copy of a Jinja expression in which the macro parameters are replaced by the arguments of the call"""
+    if isinstance(n, nodes.Name) and n.ctx == "load" and n.name in binding:
+        return binding[n.name]
+    if isinstance(n, nodes.Node):
+        vals = []
+        for fld in n.fields:
+            v = getattr(n, fld)
+            vals.append([_clone(x, binding) for x in v] if isinstance(v, list) else _clone(v, binding))
+        return type(n)(*vals, lineno=n.lineno)
+    return n
 
-    def rec(ns: list[nodes.Node], g: tuple[str, bool] | None) -> bool:
-        for n in ns:
-            if n is target:
-                res[0] = g
-                return True
-            if isinstance(n, nodes.If):
-                if rec(n.body, (expr_text(n.test), True)) or rec(n.else_, (expr_text(n.test), False)):
-                    return True
-                for el in n.elif_:
-                    if rec(el.body, (expr_text(el.test), True)):
-                        return True
-            else:
-                for fld in ("body", "else_"):
-                    sub = getattr(n, fld, None)
-                    if isinstance(sub, list) and rec(sub, g):
-                        return True
-        return False
 
-    rec(body, None)
-    return res[0]
+def _macro_call(c: nodes.Node, ti: Any) -> "tuple[nodes.Macro, nodes.Call] | None":
+    """the macro of the same template that the output expression calls (possibly through filters: `{{ _m(...) | indent(4) }}`)"""
+    while isinstance(c, nodes.Filter) and c.node is not None:
+        c = c.node
+    if isinstance(c, nodes.Call) and isinstance(c.node, nodes.Name) and c.node.name in ti.macros:
+        return ti.macros[c.node.name], c
+    return None
+
+
+def _frags(body: list[nodes.Node], ti: Any, guards: tuple = (), gnodes: tuple = (), loops: tuple = (), binding: "dict[str, Any] | None" = None,
+           stack: tuple = (), tests: "list[nodes.Node] | None" = None, sets: bool = False) -> Iterator[tplq.Frag]:
+    """tplq.frags, plus: the filter of a `for ... if cond` loop is a guard of the loop body (it is the same decision as an `if`
+    around the body); a call of a macro of the same template is replaced by the fragments of that macro, its conditions
+    expressed in the caller's terms (parameters replaced by the arguments), so that extracting a shared body into a private macro
+    changes nothing; with sets=True `{% set x = e %}` statements are reported as fragments of kind "set".  `tests` collects
+    every condition met on the way."""
+    b = binding or {}
+
+    def cond(t: nodes.Node) -> nodes.Node:
+        t2 = _clone(t, b) if b else t
+        if tests is not None:
+            tests.append(t2)
+        return t2
+
+    for n in body:
+        if isinstance(n, nodes.Output):
+            for c in n.nodes:
+                if isinstance(c, nodes.TemplateData):
+                    yield tplq.Frag("data", c.data, c.lineno, guards, gnodes, loops, c)
+                    continue
+                mc = _macro_call(c, ti)
+                if mc is not None and mc[0].name not in stack and len(stack) < 4:
+                    macro, call = mc
+                    b2: dict[str, Any] = {}
+                    params = [a.name for a in macro.args]
+                    for a, d in zip(macro.args[len(macro.args) - len(macro.defaults):], macro.defaults):
+                        b2[a.name] = d
+                    for i, a in enumerate(call.args):
+                        if i < len(params):
+                            b2[params[i]] = _clone(a, b) if b else a
+                    for kw in call.kwargs:
+                        b2[kw.key] = _clone(kw.value, b) if b else kw.value
+                    yield from _frags(macro.body, ti, guards, gnodes, loops, b2, stack + (macro.name,), tests, sets)
+                    continue
+                c2 = _clone(c, b) if b else c
+                yield tplq.Frag("expr", expr_text(c2), c.lineno, guards, gnodes, loops, c)
+        elif isinstance(n, nodes.If):
+            t0 = cond(n.test)
+            t = expr_text(t0)
+            yield from _frags(n.body, ti, guards + ((t, True),), gnodes + (t0,), loops, b, stack, tests, sets)
+            neg = guards + ((t, False),)
+            gn = gnodes + (t0,)
+            for el in n.elif_:
+                t1 = cond(el.test)
+                t2 = expr_text(t1)
+                yield from _frags(el.body, ti, neg + ((t2, True),), gn + (t1,), loops, b, stack, tests, sets)
+                neg = neg + ((t2, False),)
+                gn = gn + (t1,)
+            if n.else_:
+                yield from _frags(n.else_, ti, neg, gn, loops, b, stack, tests, sets)
+        elif isinstance(n, nodes.For):
+            it = expr_text(_clone(n.iter, b) if b else n.iter)
+            g2, gn2 = guards, gnodes
+            if n.test is not None:
+                t0 = cond(n.test)
+                g2, gn2 = guards + ((expr_text(t0), True),), gnodes + (t0,)
+            yield from _frags(n.body, ti, g2, gn2, loops + (it,), b, stack, tests, sets)
+            if n.else_:
+                yield from _frags(n.else_, ti, guards, gnodes, loops, b, stack, tests, sets)
+        elif isinstance(n, nodes.Assign):
+            if sets:
+                yield tplq.Frag("set", expr_text(_clone(n.node, b) if b else n.node), n.lineno, guards, gnodes, loops, n)
+        elif isinstance(n, (nodes.With, nodes.Scope, nodes.CallBlock, nodes.FilterBlock, nodes.AssignBlock)):
+            yield from _frags(getattr(n, "body", []), ti, guards, gnodes, loops, b, stack, tests, sets)
+        elif isinstance(n, nodes.Macro):
+            continue
+
+
+class _Mentions:
+    """Which string constants does a small method *evaluate* on the paths that are consistent with known boolean atoms?  The
+    paths come from PathSim (indifferent to branch order, inverted guards, early return vs nested if, conditions held in
+    locals); within an expression only the parts that are evaluated count (the arm of a conditional expression selected by the
+    known condition, the operands of and / or up to the deciding one).  Calls of self.<method>(...) are followed with the
+    arguments that are known."""
+
+    def __init__(self, ix: Any):
+        self.ix = ix
+
+    def outcomes(self, f: Any, cls: Any, env: dict[str, bool], needle: str, depth: int = 0) -> set[bool]:
+        """{True / False}: over the paths consistent with env, is a string constant containing `needle` evaluated?"""
+
+        def leaf(e: ast.expr, st: dict, sim: PathSim) -> "bool | None":
+            return env.get(norm(e))
+
+        def none_of(e: ast.expr, st: dict, sim: PathSim) -> "bool | None":
+            v = env.get(norm(e) + " is None")
+            if v is None and isinstance(e, ast.Attribute):
+                v = self._field_is_none(e.attr)
+            return v
+
+        sim = PathSim(f.node, leaf, none_of)
+        res: set[bool] = set()
+        for p in sim.paths():
+            if isinstance(p.end, ast.Raise):
+                continue
+            acc = {False}
+            for ev in p.events:
+                parts = [ev.node] if ev.kind == "test" else [x for x in ast.iter_child_nodes(ev.node) if isinstance(x, ast.expr)]
+                for part in parts:
+                    got = self._expr(part, ev.state, sim, f, cls, env, needle, depth)
+                    acc = {a or b for a in acc for b in got}
+            res |= acc
+        return res
+
+    def _field_is_none(self, attr: str) -> "bool | None":
+        """False when every class of the repository that declares a field of this name annotates it with a type that does not
+        admit None"""
+        anns = [c.fields[attr] for c in self.ix.classes.values() if attr in c.fields]
+        if anns and all(a is not None and "None" not in norm(a) and "Optional" not in norm(a) and "Any" not in norm(a) for a in anns):
+            return False
+        return None
+
+    def _expr(self, e: ast.AST, st: dict, sim: PathSim, f: Any, cls: Any, env: dict[str, bool], needle: str, depth: int) -> set[bool]:
+        def rec(x: ast.AST) -> set[bool]:
+            return self._expr(x, st, sim, f, cls, env, needle, depth)
+
+        def both(a: set[bool], b: set[bool]) -> set[bool]:
+            return {x or y for x in a for y in b}
+
+        if isinstance(e, ast.Constant):
+            return {isinstance(e.value, str) and needle in e.value}
+        if isinstance(e, ast.IfExp):
+            t = sim.truth(e.test, st)
+            arms = rec(e.body) if t is True else rec(e.orelse) if t is False else rec(e.body) | rec(e.orelse)
+            return both(rec(e.test), arms)
+        if isinstance(e, ast.BoolOp):
+            acc = rec(e.values[0])
+            stop: set[bool] = set()
+            for prev, v in zip(e.values, e.values[1:]):
+                t = sim.truth(prev, st)
+                decided = (t is False) if isinstance(e.op, ast.And) else (t is True)
+                if decided:
+                    break
+                if t is None:
+                    stop |= acc
+                acc = both(acc, rec(v))
+            return acc | stop
+        out = {False}
+        for ch in ast.iter_child_nodes(e):
+            if isinstance(ch, (ast.expr_context, ast.operator, ast.unaryop, ast.cmpop, ast.boolop)):
+                continue
+            out = both(out, rec(ch))
+        if isinstance(e, ast.Call) and isinstance(e.func, ast.Attribute) and isinstance(e.func.value, ast.Name) and e.func.value.id == "self" \
+                and depth < 3:
+            m = self.ix.find_method(cls, e.func.attr)
+            if m is not None and m is not f:
+                out = both(out, self.outcomes(m, cls, self._callee_env(m, e, st, sim, env), needle, depth + 1) or {False})
+        return out
+
+    @staticmethod
+    def _callee_env(m: Any, c: ast.Call, st: dict, sim: PathSim, env: dict[str, bool]) -> dict[str, bool]:
+        e2 = {k: v for k, v in env.items() if k.startswith("self.")}
+        a = m.node.args
+        allpos = [*a.posonlyargs, *a.args]
+        pos = [p.arg for p in allpos if p.arg != "self"]
+        bound: dict[str, ast.expr] = {}
+        for p, d in zip(allpos[len(allpos) - len(a.defaults):], a.defaults):
+            bound[p.arg] = d
+        for p, d in zip(a.kwonlyargs, a.kw_defaults):
+            if d is not None:
+                bound[p.arg] = d
+        for i, arg in enumerate(c.args):
+            if i < len(pos):
+                bound[pos[i]] = arg
+        for kw in c.keywords:
+            if kw.arg:
+                bound[kw.arg] = kw.value
+        for pn, v in bound.items():
+            if isinstance(v, ast.Constant) and not isinstance(v.value, bool):
+                continue
+            t = sim.truth(v, st)
+            if t is not None:
+                e2[pn] = t
+        return e2
